@@ -70,6 +70,20 @@ theorem SizeOK_fill1 {limit : Nat} {t : Tree} (ht : SizeOK limit t) (p : Path) (
       · simp at hm; subst hm; exact hn hk
       · exact ht q m hm hk
 
+theorem SizeOK_upgrade {limit : Nat} {t : Tree} (ht : SizeOK limit t) (i : Nat) (p : Path) (n : Node)
+    (hn : n.kind = .file → n.size < limit) : SizeOK limit (upgrade i t p n) := by
+  intro q m hm hk
+  unfold upgrade at hm
+  split at hm
+  · split at hm
+    · unfold upd at hm
+      simp only at hm
+      split at hm
+      · simp at hm; subst hm; exact hn hk
+      · exact ht q m hm hk
+    · exact ht q m hm hk
+  · exact ht q m hm hk
+
 theorem implDir_size (limit i : Nat) : (implDir i).kind = .file → (implDir i).size < limit := by
   intro h; cases h
 
@@ -91,7 +105,9 @@ theorem SizeOK_entryStep {limit : Nat} (i : Nat) (st : Tree × Tree) (e : Entry)
     SizeOK limit (entryStep i st e).1 ∧ SizeOK limit (entryStep i st e).2 := by
   unfold entryStep
   split
-  · exact ⟨h1, h2⟩
+  · split
+    · exact ⟨SizeOK_upgrade h1 i e.p _ he, SizeOK_upgrade h2 i e.p _ he⟩
+    · exact ⟨h1, h2⟩
   · obtain ⟨p1, p2⟩ := SizeOK_parentsFold (limit := limit) i (parents e.p) st h1 h2
     exact ⟨SizeOK_fill1 p1 e.p _ he, SizeOK_fill1 p2 e.p _ he⟩
 
@@ -111,7 +127,7 @@ theorem SizeOK_root (limit i : Nat) : SizeOK limit (rootTree i) := by
   unfold rootTree at hn
   simp only at hn
   split at hn
-  · simp at hn; subst hn; cases hk
+  · simp at hn; subst hn; simp [rootNode] at hk
   · cases hn
 
 theorem SizeOK_revFrom {limit : Nat} (layers : List Layer)
@@ -156,9 +172,14 @@ theorem C10_layer_bytes_final (limit : Nat) (U : List Path) (req : Path → Bool
   intro q n hn hk
   unfold pruneFinal at hn
   simp only at hn
-  split at hn
-  · cases hn
-  · exact h q n hn hk
+  cases hg : t.get q with
+  | none => rw [hg] at hn; cases hn
+  | some m =>
+    rw [hg] at hn
+    simp only at hn
+    split at hn
+    · simp at hn; subst hn; exact h q m hg hk
+    · cases hn
 
 /-- at the limit: a regular file of exactly `MaxFileBytes` bytes is rejected, one byte less is accepted -/
 theorem C10_layer_bytes_boundary (limit : Nat) (hl : 0 < limit) (name : String) (mode cid : Nat) (vp segs : Path) (w : Bool) :
